@@ -10,9 +10,33 @@ func init() {
 	register("C03", func(in Sx) Sx {
 		m := modelOf(in.Nth(0))
 		outs := []Sx{}
+		var sess *cliSess
+		cliDone := false
 		for _, q := range in.Nth(1).Items() {
 			if q.Nth(0).Str() == "call" {
 				dot := call.NewCallGraph().Analysis(q.Nth(1).Str(), m, q.Nth(2).Bool())
+				// the same query through `coca call -c ROOT -d deps.json [-l]` (the first call query of every
+				// third history): what the command writes to coca_reporter/call.dot is the observation
+				if cliEnabled() && !cliDone && (len(q.Nth(1).Str())+len(in.Nth(1).Items()))%3 == 0 {
+					cliDone = true
+					if sess == nil {
+						sess = newCliSess()
+						defer sess.close()
+						sess.writeJSON("deps.json", m)
+					}
+					args := []string{"call", "-c", q.Nth(1).Str(), "-d", "coca_reporter/deps.json"}
+					if q.Nth(2).Bool() {
+						args = append(args, "-l")
+					}
+					sess.remove("call.dot")
+					if out, ok := sess.run(args...); !ok {
+						dot = "!CLI-ERROR " + panicClass(out)
+					} else if text, ok := sess.read("call.dot"); !ok {
+						dot = "!CLI-NO-OUTPUT call.dot"
+					} else {
+						dot = text
+					}
+				}
 				outs = append(outs, L(A(dot)))
 				continue
 			}
